@@ -1106,6 +1106,54 @@ func includeStream(r *Rng, n int) {
 	}
 }
 
+// includeChains: include trees up to the depth limit: a chain main -> db.1 -> ... -> db.k, each file with
+// its own origin argument and a record before and after its $INCLUDE. Chains of 1..7 nested files are
+// legal zones (maxIncludeDepth = 7) and must yield every record, in file order, under the right origin;
+// a chain of 8 must be refused.
+func includeChains() {
+	for k := 1; k <= 8; k++ {
+		for _, hasfs := range []bool{true, false} {
+			files := map[string]z.Recipe{}
+			var want []string
+			want = append(want, "m.example.org.")
+			for i := 1; i <= k; i++ {
+				want = append(want, fmt.Sprintf("a%d.o%d.example.org.", i, i))
+			}
+			for i := k; i >= 1; i-- {
+				want = append(want, fmt.Sprintf("b%d.o%d.example.org.", i, i))
+			}
+			want = append(want, "n.example.org.")
+			for i := 1; i <= k; i++ {
+				body := fmt.Sprintf("a%d 60 IN A 10.0.0.%d\n", i, i)
+				if i < k {
+					body += fmt.Sprintf("$INCLUDE db.%d o%d.example.org.\n", i+1, i+1)
+				}
+				body += fmt.Sprintf("b%d 60 IN A 10.0.1.%d\n", i, i)
+				files[fmt.Sprintf("z/db.%d", i)] = z.Lit(body)
+			}
+			text := "m 60 IN A 10.9.9.1\n$INCLUDE db.1 o1.example.org.\nn 60 IN A 10.9.9.2\n"
+			c := cfgFor("example.org.", ptr(uint32(300)), text)
+			c.File = "z/main.zone"
+			c.Inc, c.HasFS = true, hasfs
+			c.Files = files
+			o := z.Run(c, 1)
+			stat["include_chain_checked"]++
+			var owners []string
+			for _, rc := range o.Recs {
+				owners = append(owners, rc.Name)
+			}
+			in := map[string]any{"depth": k, "fs": hasfs, "got": strings.Join(owners, " ")}
+			if k <= 7 {
+				if o.Err != nil || strings.Join(owners, " ") != strings.Join(want, " ") {
+					Viol("C06/include/chain-within-limit", fmt.Sprintf("a chain of %d nested included files does not yield its records (err=%v)", k, o.Err), in)
+				}
+			} else if o.Err == nil {
+				Viol("C06/include/chain-beyond-limit", "a chain of 8 nested included files was accepted", in)
+			}
+		}
+	}
+}
+
 // ---------- probes for the two lexer deviations the streams avoid ----------
 
 func probes() {
@@ -1187,5 +1235,73 @@ func runC06(r *Rng, tier string, n int) {
 	semanticStream(r, 260*mult, 6)
 	generateStream(r, 120*mult)
 	includeStream(r, 120*mult)
+	rdataNameCompletion(r, mult)
+	includeChains()
 	Stat(stat)
+}
+
+// rdataNameCompletion: relative names and @ are completed with the current origin in EVERY domain-name
+// field of EVERY record type (oracle only: the RDATA grammars of most types are outside the model).
+// A generated record gets names under the origin in all its name fields; its printed form, with those
+// names rewritten as relative names (or @), must parse under $ORIGIN to the same record.
+func rdataNameCompletion(r *Rng, mult int) {
+	pool := &NamePool{R: r}
+	for _, t := range AllTypes() {
+		for k := 0; k < 3*mult; k++ {
+			rr, info := GenRR(r, pool, t, false)
+			if rr == nil || !info.WellFormed {
+				continue
+			}
+			origin := []string{"example.org.", "Sub.Example.ORG.", "x."}[k%3]
+			n := 0
+			var rel []string
+			ForEachNameField(rr, func(get func() string, set func(string)) {
+				if k%3 == 2 && n%2 == 1 {
+					set(origin) // written as @
+					rel = append(rel, "@")
+				} else {
+					lab := "rel" + strconv.Itoa(n) + []string{"", ".deep"}[n%2]
+					set(lab + "." + origin)
+					rel = append(rel, lab)
+				}
+				n++
+			})
+			if n == 0 {
+				continue
+			}
+			rr.Header().Name = "owner." + origin
+			var abs string
+			if Protect(func() string { abs = rr.String(); return "ok" }) != "ok" {
+				continue
+			}
+			base, err := dns.NewRR(abs)
+			if err != nil || base == nil || base.String() != abs {
+				stat["rdata_names_text_not_reparsable"]++
+				continue // C05's business
+			}
+			// rewrite the RDATA part: everything after the type mnemonic
+			hdrEnd := strings.Index(abs, "\t"+dns.TypeToString[t]+"\t")
+			if hdrEnd < 0 {
+				continue
+			}
+			hdrEnd += len(dns.TypeToString[t]) + 2
+			rdata := abs[hdrEnd:]
+			i := 0
+			ForEachNameField(rr, func(get func() string, set func(string)) {
+				rdata = strings.Replace(rdata, get(), rel[i], 1)
+				i++
+			})
+			text := "$ORIGIN " + origin + "\n" + abs[:hdrEnd] + rdata + "\n"
+			stat["oracle_rdata_names_checked"]++
+			zp := dns.NewZoneParser(strings.NewReader(text), "", "")
+			got, ok := zp.Next()
+			if !ok || got == nil || zp.Err() != nil {
+				Viol("C06/rdata-name-completion/"+dns.TypeToString[t], fmt.Sprintf("a record with relative RDATA names is not accepted: %v", zp.Err()), map[string]any{"text": text})
+				continue
+			}
+			if got.String() != abs {
+				Viol("C06/rdata-name-completion/"+dns.TypeToString[t], "relative names in the RDATA are not completed with the origin: got "+got.String(), map[string]any{"text": text, "want": abs})
+			}
+		}
+	}
 }
